@@ -133,7 +133,7 @@ struct man<SubManifold<M>>
   static inline CastT<NewScalar> cast(const PlainObject & m)
   {
     return CastT<NewScalar>(
-      man<M>::template cast<NewScalar>(m.m()), man<M>::template cast<NewScalar>(m.m0()), m.fixed_dims());
+      man<M>::template cast<NewScalar>(m.m0()), man<M>::template cast<NewScalar>(m.m()), m.fixed_dims());
   }
 
   template<typename Derived>
